@@ -92,6 +92,8 @@ def run(ctx, res):
     cf = run_confinement(ctx)
     handlers, helpers, inter = handler_functions(ctx)
     hs = handlers_of(ctx, lambda t: (t[0] in FLAT and t[1] in BODY) or (t[0] in BODY and t[1] in FLAT))
+    from .c04 import report_binding_slips
+    ctx.require(res, "R2.9", report_binding_slips(ctx, res, "R2.9", hs), 2, "handlers bound by the dispatcher")
     from .c01 import covered_pairs
     ctx.require(res, "R2.1", len(covered_pairs(ctx, lambda t: (t[0] in FLAT and t[1] in BODY) or (t[0] in BODY and t[1] in FLAT))), 10,
                 "flat x body operand pairs bound to a handler")
@@ -139,4 +141,12 @@ def run(ctx, res):
     # R2.4 the membership tests that clip every hit (`hit in cpg`, `end point in cph`) are inclusive at the boundary
     from .c05 import r55_inclusive_thresholds
     r55_inclusive_thresholds(ctx, res, cnames=("ConvexPolygon", "ConvexPolyhedron"), rule="R2.4", minimum=1)
+    # R2.8 the handlers' internal sanity raises ('Bug detected') are unreachable: by the E1 types of the value switched on,
+    # by an equality the callee already decided, propositionally, or by the number of add sites (the analysis of C04 R4.7)
+    from .c04 import r47
+    r47(ctx, res, scope=list(hs + helpers), rule="R2.8", need=10)
+    # R2.7 the linear solver picks its pivot row by the pivot column (coverage.py)
+    from ..coverage import check_pivot_choice
+    kp = check_pivot_choice(ctx, res, "R2.7")
+    ctx.require(res, "R2.7", kp, 2, "row elements read by find_pivot_row")
     res.undecided_ob("coordinates of the hits; longest-segment selection; merging of coincident hits by hash; tangency")
